@@ -60,6 +60,7 @@ def generate(tier, seed, work, stats):
         cases.append(dict(prods=prods, vpool="upper", tpool="ab", family="random", clash=True))
         if len(cases) % 4 == 0:     # all parsers on grammars whose variables carry the values of the terminals
             cases.append(dict(prods=prods, vpool="clash", tpool="ab", family="random-clash"))
+            cases.append(dict(prods=prods, vpool="dollar", tpool="ab", family="random-dollar-variable"))
     for prods in CLASH_DIRECTED:
         cases.append(dict(prods=prods, vpool="upper", tpool="ab", family="directed-clash", clash=True))
     for c in cases:
